@@ -232,7 +232,7 @@ func (r *v12FSMRun) step(id int, step map[string]interface{}) v12Event {
 	case "Restore":
 		// server v takes a snapshot (Server.Snapshot, fsmSnapshot.Persist), stops, and a
 		// new Server over the same directory restores it (Server.Restore) and finishes
-		// recovery (finishedRecovery, as Server.Apply does at the last replayed entry)
+		// recovery (finishRestore, as Server.Start does when the snapshot covers the log)
 		v := vStr(step, "srv")
 		args["srv"] = v
 		obs.Srv = v
@@ -274,7 +274,7 @@ func (r *v12FSMRun) step(id int, step map[string]interface{}) v12Event {
 				return
 			}
 			r.srv[v].goroutineWait.Wait()
-			if _, _, err := r.srv[v].finishedRecovery(r.idx); err != nil {
+			if err := r.srv[v].finishRestore(); err != nil {
 				obs.Err = "other:" + err.Error()
 			}
 			r.srv[v].goroutineWait.Wait()
